@@ -26,6 +26,8 @@ enum OpKind
   OP2_APPEND_C, OP2_APPEND_M, OP2_COMPARE,
   // --- generator alphabet applied to B in W2 (`p` = which container: 0 A, 1 B)
   OP2_GEN_PUSH, OP2_GEN_POP, OP2_GEN_RESERVE, OP2_GEN_SHRINK, OP2_GEN_CLEAR,
+  // --- self-referential calls on one container (W2; `p` = which container)
+  OP2_SELF_COPY_ASSIGN, OP2_SELF_MOVE_ASSIGN, OP2_SELF_SWAP, OP2_SELF_ASSIGN_FN,
   OP_NKINDS
 };
 
@@ -48,7 +50,8 @@ inline const char *op_name (int k)
     "copy-ctor", "move-ctor", "copy-ctor(alloc)", "move-ctor(alloc)",
     "copy-assign", "move-assign", "swap", "swap(non-member)",
     "append(const other&)", "append(other&&)", "compare",
-    "gen:push_back", "gen:pop_back", "gen:reserve", "gen:shrink_to_fit", "gen:clear"
+    "gen:push_back", "gen:pop_back", "gen:reserve", "gen:shrink_to_fit", "gen:clear",
+    "self copy-assign (a = a)", "self move-assign (a = std::move(a))", "self swap (a.swap(a))", "self assign (a.assign(a))"
   };
   return (0 <= k && k < OP_NKINDS) ? names[k] : "?";
 }
